@@ -45,6 +45,11 @@ def run(tier):
     _d_step_control(chk)
     _e_predictions(chk)
     _f_members(chk)
+    _f_parameter_symmetry(chk)
+    # a family served from the cache is the one generated with the options of the call (every step-control field included)
+    from . import c20
+    from .common import Relabel
+    c20._b_key_params(Relabel(chk, {"C20.b": "C13.d-cache"}), [x for x in c20._sites() if x.cls.name == "_OrbitContinuationService"])
     return chk
 
 
@@ -542,6 +547,44 @@ def _e_predictions(chk):
 
 
 # ------------------------------------------------------------------------------------------------ f
+def _f_parameter_symmetry(chk):
+    """Members are corrected with the family's symmetric scheme (start on the fixed set of a reversing symmetry, perpendicular
+    arrival at the event plane, period = multiple of the event time): that closes the orbit only if the START stays in the
+    fixed set.  The predictor moves the components named by the family's default continuation `state`; each of them must be a
+    free coordinate of the start symmetry (S1: x, z, vy; S2: x, vy, vz) - stepping y (or a velocity the symmetry pins to
+    zero) produces members whose corrections 'converge' at the first plane crossing without being periodic."""
+    from . import c05
+    OSM = "hiten.algorithms.types.services.orbits"
+    omod = ri.need_module(OSM)
+    names = {0: "x", 1: "y", 2: "z", 3: "vx", 4: "vy", 5: "vz"}
+    n = 0
+    for fam, ccls, Z0, ctl, res, coord, start, arrive in c05.family_symmetries():
+        cname = f"_{fam}OrbitContinuationService"
+        cls = next((c for c in omod.tree.body if isinstance(c, ast.ClassDef) and c.name == cname), None)
+        if cls is None or not any(isinstance(f, ast.FunctionDef) and f.name == "_default_continuation_config" for f in cls.body):
+            continue
+        cap = {}
+        ip = Interp(overrides={"OrbitContinuationConfig": lambda ip_, a, k: (cap.update(k), SymObj(None, dict(k), "cfg"))[1]})
+        try:
+            ip.apply(ip.getattr(SymObj(ClassRef(omod, cls), {}, "svc"), "_default_continuation_config"), [], {})
+        except (KpeRaise, OutsideFragment) as exc:
+            raise AnalysisError(f"{cname}._default_continuation_config outside fragment: {exc}")
+        st = cap.get("state")
+        if st is None:
+            continue
+        idx = {int(S(i)) for i in (st if isinstance(st, (tuple, list)) else (st,))}
+        n += 1
+        # symmetries whose fixed set contains the analytic start state (the correction's own choice when it has one)
+        cands = start or [nm for nm, (zs, free) in c05.SYMMETRIES.items() if zs <= Z0]
+        ok = any(idx <= c05.SYMMETRIES[nm][1] for nm in cands)
+        chk.check(ok, "C13.f", f"{OSM}::{cname}._default_continuation_config[state]",
+                  f"{fam}: the default continuation steps {sorted(names[i] for i in idx)} but the family's start state lies in Fix({cands}) (zero components "
+                  f"{sorted(names[i] for i in Z0)}): {sorted(names[i] for i in idx if not any(i in c05.SYMMETRIES[nm][1] for nm in cands))} are pinned to zero by that symmetry, "
+                  f"so the predicted members leave the symmetry set and their symmetric correction does not close them",
+                  sample=f"{fam}: continuation in {sorted(names[i] for i in idx)} stays inside Fix({cands})")
+    chk.floor("families with a default continuation parameter examined", n, 3)
+
+
 def _f_members(chk):
     mod, cls = ri.find_def(IF, "_OrbitContinuationInterface")
     made = []
